@@ -795,11 +795,27 @@ pub fn check_main(args: &[String]) -> i32 {
         }
     }
 
+    // seam fidelity: the first cases of this check once more, against the real binary (guard off)
+    let scratch_dir = format!("{}/sim/target/fidelity-{}", verif_home(), prop);
+    let fid = if crate::fidelity::real_bin().is_some() {
+        let n = if tier == "thorough" { 1500 } else { 160 };
+        // spread over the whole range of this check's cases
+        let n = n.min(total);
+        let sw = crate::fidelity::sweep(&prop, seed, n, (total / n.max(1)).max(1), nw as usize, &scratch_dir);
+        for m in sw.mismatches.iter().take(5) {
+            harness_errors.push(format!("simulated console and real binary disagree: {}", m));
+        }
+        Some(sw)
+    } else {
+        None
+    };
+
     // report
     let known = load_known();
     viols.sort_by(|a, b| a.class.cmp(&b.class).then(a.run.cmp(&b.run)));
     let mut reported: BTreeMap<String, (u64, String, String)> = BTreeMap::new();
     let mut known_hit: BTreeMap<String, u64> = BTreeMap::new();
+    let mut confirmations: BTreeMap<String, String> = BTreeMap::new();
     let dir = format!("{}/replays/{}", verif_home(), prop);
     let _ = std::fs::create_dir_all(&dir);
     for m in &viols {
@@ -813,7 +829,34 @@ pub fn check_main(args: &[String]) -> i32 {
             continue;
         }
         let fname = format!("{}/{}-{}-{:016x}.json", dir, seed, m.run, fnv1a(m.class.as_bytes()));
-        let body = serde_json::to_string_pretty(&m.case).unwrap();
+        // confirmation against unhooked code, where a file and a pipe can express the scenario
+        let mut mcase = m.case.clone();
+        let mut confirm = String::new();
+        if let Some(bin) = crate::fidelity::real_bin() {
+            if mcase.kind != "multi" && crate::fidelity::pipe_expressible(&mcase.scn) && !m.class.contains("worker_died") {
+                let hist = crate::world::run_cli(&mcase.scn);
+                if let Some(r) = crate::fidelity::real_run(&mcase.scn, &bin, &scratch_dir, "confirm", Duration::from_secs(20)) {
+                    match crate::fidelity::compare(&hist, &r) {
+                        Some(Ok(())) => {
+                            confirm = "the real binary (guard off, file + pipe) behaves exactly as simulated".to_owned();
+                            if let Some(e) = mcase.expect.as_mut() {
+                                e.real_binary_agrees = Some(true);
+                            }
+                        }
+                        Some(Err(e)) => {
+                            confirm = format!("the real binary does NOT behave as simulated: {}", e);
+                            if let Some(x) = mcase.expect.as_mut() {
+                                x.real_binary_agrees = Some(false);
+                            }
+                            harness_errors.push(format!("violation {} is not confirmed by the real binary: {}", m.class, e));
+                        }
+                        None => {}
+                    }
+                }
+            }
+        }
+        confirmations.insert(m.class.clone(), confirm);
+        let body = serde_json::to_string_pretty(&mcase).unwrap();
         if let Err(e) = std::fs::write(&fname, body) {
             harness_errors.push(format!("cannot write {}: {}", fname, e));
         }
@@ -840,11 +883,16 @@ pub fn check_main(args: &[String]) -> i32 {
     for (class, (run, fname, msg)) in &reported {
         println!("violation class={} first_run={} count={}", class, run, stats.violations.get(class).cloned().unwrap_or(1));
         println!("  {}", msg);
+        if let Some(c) = confirmations.get(class) {
+            if !c.is_empty() {
+                println!("  {}", c);
+            }
+        }
         println!("VIOLATION property={} replay={}", prop, fname);
     }
 
     let wall = t0.elapsed().as_secs_f64();
-    let evidence = build_evidence(&prop, &tier, seed, total, nw, &stats, &samples, &known_hit, &reported, rechecks.len(), mismatches, wall, &harness_errors);
+    let evidence = build_evidence(&prop, &tier, seed, total, nw, &stats, &samples, &known_hit, &reported, rechecks.len(), mismatches, wall, &harness_errors, fid.as_ref());
     let _ = std::fs::create_dir_all(format!("{}/evidence", verif_home()));
     let ev_path = format!("{}/evidence/{}.json", verif_home(), prop);
     if let Err(e) = std::fs::write(&ev_path, serde_json::to_string_pretty(&evidence).unwrap()) {
@@ -883,6 +931,7 @@ fn build_evidence(
     mismatches: usize,
     wall: f64,
     harness_errors: &[String],
+    fid: Option<&crate::fidelity::Sweep>,
 ) -> serde_json::Value {
     let level = if prop == "C15" { "fault_enumeration" } else { "exploration" };
     let rare_zero: Vec<String> = crate::dispatch::expected_rare(prop)
@@ -928,6 +977,13 @@ fn build_evidence(
             "violation_classes": stats.violations,
             "harness_errors": harness_errors,
             "real_vs_stub": crate::dispatch::real_vs_stub(),
+            "real_binary_fidelity": match fid {
+                Some(f) => serde_json::json!({
+                    "what": "the first cases of this check executed a second time by the binary built from /repo with the guard off (real file, real pipes, real main); stdout and exit status must equal the simulated ones byte for byte",
+                    "sessions": f.sessions, "identical": f.compared, "not_comparable_out_of_fuel": f.not_comparable, "mismatches": f.mismatches.len()
+                }),
+                None => serde_json::json!({ "sessions": 0, "note": "SIMCTL_REAL_BIN not set: real binary not available to this run" }),
+            },
         },
         "assumptions": crate::dispatch::assumptions(prop),
     })
